@@ -13,7 +13,7 @@ TECHNIQUE = "exhaustive enumeration of branch mnemonic x displacement -140..+140
 RULE = (
     "programs `*=S` [`@=R`] label/padding/branch built so that target - (branch+2) = d for every d in -140..140 (quick: 2 mnemonics over the full range, the others at "
     "-129,-128,-1,0,127,128) and for far same-bank displacements (+-0x100, 0x200, 0x1000, 0x4000, half a window, a window minus 0x100, a whole window, each +-{0..3,126..130}), target given as backward label / forward label / numeric address, placements {mid-window, branch on the last two bytes of the window, target on "
-    "the first byte, target on the last byte}, relocation {none, @= to a ROM address in another bank, @= to RAM with ROM or RAM target, ROM branch to a RAM address}, LoROM and "
+    "the first byte, target on the last byte}, relocation {none, @= to a ROM address in another bank, @= to RAM with ROM or RAM target, ROM branch to a RAM address}, primary and mirror bank ranges, LoROM and "
     "HiROM.  Oracle: same bank + both in-window ROM: -128<=d<=127 => accepted with [opcode, d&0xFF]; else rejected; RAM run address or RAM target => rejected.  "
     "Non-trivial = |d| in 126..130, or a window-edge placement, or any @= / RAM case; distinct by construction."
 )
@@ -50,7 +50,7 @@ def build(case):
     expectation: ('enc', opcode, d, where) | ('reject', why)"""
     m, rom, d, tgt, place, reloc = case["m"], case["rom"], case["d"], case["tgt"], case["place"], case["reloc"]
     model = busmodel.builtin(rom)
-    r = model.rom_ranges()[0]
+    r = model.rom_ranges()[case.get("mirror", 0)]
     bank = (r.first + 2) << 16
     lo, hi = bank | r.win_lo, bank | r.win_hi
     opcode = isa.BY_KEY.get((m, "rel8"))
@@ -187,11 +187,14 @@ def run_case(case) -> Outcome:
             for tgt in TARGETS:
                 for place in PLACES:
                     for reloc in RELOCS:
-                        sub = {"m": case["m"], "rom": case["rom"], "d": d, "tgt": tgt, "place": place, "reloc": reloc}
-                        if check_one(out, sub):
-                            ev += 1
-                            if 126 <= abs(d) <= 130 or place != "mid" or reloc != "none":
-                                nt += 1
+                        for mirror in (0, 1):
+                            if mirror and not (case["full"] or d in KEY_D):
+                                continue
+                            sub = {"m": case["m"], "rom": case["rom"], "d": d, "tgt": tgt, "place": place, "reloc": reloc, "mirror": mirror}
+                            if check_one(out, sub):
+                                ev += 1
+                                if 126 <= abs(d) <= 130 or place != "mid" or reloc != "none" or mirror:
+                                    nt += 1
         # far displacements (same bank): every multiple-of-256 alias and the window-size aliases of small displacements
         W = 0x8000 if case["rom"] == "low" else 0x10000
         far = set()
